@@ -902,3 +902,70 @@ def rule_x11(P, reach, tables):
             findings.append(F("X11", f"X11|stale|{fn}", f"audited input-sized site {fn} matches nothing any more; remove it", "tables/e4_recursion.json"))
     obl.append({"rule": "X11", "inst": f"{n_src} wide integer parses from text in the compile path examined", "ok": True})
     return findings, obl, {"x11_wide_parses": n_src}
+
+
+def rule_x12(P):
+    """Source loaders interpret the whole input on the calling thread, before the scheduler (and its per-job catch_unwind) exists.
+    A panic there (an unwrap on a malformed number, an index, a shift) would end the process with status 101 and a backtrace instead
+    of a reported error.  Containment clause: every call of a constructor of a `Source` implementation (an associated function of
+    the implementing type that returns it) sits inside a closure that is handed to std::panic::catch_unwind."""
+    from common import norm_fn
+    findings, obl = [], []
+    impl_types = set()
+    for im in P.impls:
+        if im.get("trait") == "fontir::source::Source" and im.get("self"):
+            impl_types.add(im["self"].split("<")[0])
+    if len(impl_types) < 3:
+        raise E4Error(f"X12: Source implementations not found: {sorted(impl_types)}")
+    ctors = set()
+    for k, b in P.bodies.items():
+        st = (b.get("impl_self") or "").split("<")[0]
+        if st in impl_types and b.get("dk") == "AssocFn":
+            ret = b["locals"][0]
+            if st in ret and ret.startswith("std::result::Result<") and b["argc"] >= 1 and "self" not in (b.get("names") or {}).get("1", ""):
+                ctors.add(k)
+    if len(ctors) < 3:
+        raise E4Error(f"X12: too few Source constructors found: {sorted(ctors)}")
+    # closures handed to catch_unwind
+    guarded = set()
+    for k, b in P.bodies.items():
+        for blk in b["blocks"]:
+            t = blk["t"]
+            if t["t"] != "call" or blk["cl"]:
+                continue
+            nm = (t["f"].get("k") or {}).get("res") or (t["f"].get("k") or {}).get("fn") or ""
+            if not nm.endswith("panic::catch_unwind"):
+                continue
+            ga = " ".join((t["f"].get("k") or {}).get("ga") or [])
+            for ck in P.bodies:
+                if ck.startswith(k + "::{closure") or (P.bodies[ck].get("parent") == k):
+                    span = P.bodies[ck].get("span", "")
+                    # the closure type printed in the generic args carries file:line of the closure
+                    if span and span.rsplit(":", 1)[-1] and (f"{span.split(':')[0]}:{span.rsplit(':', 1)[-1]}:" in ga):
+                        guarded.add(ck)
+    n = 0
+    for k, b in sorted(P.bodies.items()):
+        if "#promoted" in k or k in ctors:
+            continue
+        st = (b.get("impl_self") or "").split("<")[0]
+        for s in P.iter_sites(k):
+            if s["kind"] != "call" or not (set(s["targets"]) & ctors) or b["blocks"][s["bi"]]["cl"]:
+                continue
+            if st in impl_types:
+                continue    # one constructor delegating to another
+            n += 1
+            # inside a guarded closure (or a closure nested in one)?
+            kk, ok = k, False
+            while kk:
+                if kk in guarded:
+                    ok = True
+                    break
+                kk = P.bodies[kk].get("parent") if kk in P.bodies else None
+            ctor = sorted(set(s["targets"]) & ctors)[0].rsplit("::", 2)
+            obl.append({"rule": "X12", "inst": f"{norm_fn(k)} builds a source ({ctor[-1]}) inside catch_unwind", "ok": ok})
+            if not ok:
+                findings.append(F("X12", f"X12|{norm_fn(k)}", f"{k} calls a Source constructor outside std::panic::catch_unwind: the loader interprets the input on the calling thread, so any panic in it "
+                                  f"(malformed number, missing attribute, index) ends the process with status 101 instead of an error", P.site_loc(k, s["line"])))
+    if n < 3:
+        raise E4Error(f"X12: only {n} Source constructor call sites seen")
+    return findings, obl, {"x12_source_ctor_calls": n, "x12_guarded_closures": len(guarded)}
